@@ -102,14 +102,18 @@ NetAccept(p) ==
      IN ApplyPeer(p, FeedOp(peers[p].x, d, "T"), FALSE)
   /\ act' = [a |-> "accept", pid |-> p]
 \* Net::reject: a close for a peer that was never accepted (no token is known yet)
+\* `fail`: the send callback reports an error for the close datagram (it is not sent); the peer is gone all the same
+Failed(r, fail) == IF fail THEN [r EXCEPT !.outs = <<>>, !.res = "callback"] ELSE r
 NetReject(p) ==
   /\ peers[p].x.st = "Unc"
-  /\ ApplyPeer(p, R(Dead(peers[p].x), <<CtrlT(peers[p].x, "Close", "no", "-", 3)>>, <<>>, "ok"), TRUE)
-  /\ act' = [a |-> "reject", pid |-> p, r |-> 3]
+  /\ \E fail \in BOOLEAN :
+       /\ ApplyPeer(p, Failed(R(Dead(peers[p].x), <<CtrlT(peers[p].x, "Close", "no", "-", 3)>>, <<>>, "ok"), fail), TRUE)
+       /\ act' = [a |-> "reject", pid |-> p, r |-> 3, fail |-> fail]
 NetDisconnect(p) ==
   /\ peers[p].x.st \notin {"Unc", "Disc"}
-  /\ ApplyPeer(p, DisconnectOp(peers[p].x, 3), TRUE)
-  /\ act' = [a |-> "disconnect", pid |-> p, r |-> 3]
+  /\ \E fail \in BOOLEAN :
+       /\ ApplyPeer(p, Failed(DisconnectOp(peers[p].x, 3), fail), TRUE)
+       /\ act' = [a |-> "disconnect", pid |-> p, r |-> 3, fail |-> fail]
 NetIgnore(p) ==
   /\ peers' = Without(p) /\ out' = Quiet
   /\ act' = [a |-> "ignore", pid |-> p]
